@@ -5,7 +5,7 @@ from ref import pools, musig
 
 ID = "C13"
 LEVEL = "exploration"
-CONFIGS = {"quick": ["san"], "thorough": ["san", "san_nv"]}
+CONFIGS = {"quick": ["san", "mx_noasm"], "thorough": ["san", "san_nv", "mx_noasm", "mx_i64"]}   # the wipe primitive is configuration-dependent (inline asm barrier / volatile memset)
 RULE = ("every sequence (bounded depth, exhaustive) over an alphabet of nonce-generation and partial-signing calls - both entry points, valid and invalid "
         "arguments, correct / other / negated keypair, missing output, invalid key-aggregation cache, invalid session, missing keypair, caller-side copy - "
         "applied to a pool of two secret-nonce objects from several start states, plus long random histories; after every call the return value, the "
@@ -167,7 +167,7 @@ def run_config(ctx, config):
                 nh += 1
     ctx.count("exhaustive_histories_depth3_or_4", nh)
     # long random histories
-    for it in range(ctx.n(200, 20000)):
+    for it in ctx.iters(200, 20000):
         objs = [Obj(), Obj()]; hist = []
         for _ in range(50):
             op = rng.choice(ALPHA); hist.append(op)
@@ -177,5 +177,5 @@ def run_config(ctx, config):
     ctx.check(all(v <= 1 for v in W.ledger.values()), "ledger:nonce_signed_more_than_once", "", config)
 
 def run(ctx):
-    for config in ctx.configs:
+    for config in ctx.cfgs():
         run_config(ctx, config)
